@@ -1,5 +1,15 @@
 //! C08: Cholesky, LDL^T and QR decompositions through every entry point.
 //!   (8 op ty (n0 n1) rows cols (x ...))      op 1 = Cholesky, 2 = LDL^T, 3 = QR
+//!   ty 0 = Rat, 1 = Fp (total division, num.rs), 2 = StrictRat (c08/strict.rs): the values of Rat,
+//!   entries encoded as for Rat, but `/` PANICS on a zero divisor, as the division of ordinary exact
+//!   types does.  The property demands absence, "never a wrong factor or a panic", for a zero pivot
+//!   (LDL^T) / a non-positive pivot (Cholesky), so the routines have to decide absence BEFORE they
+//!   divide by the pivot; the model runs its total dictionary for tag 2 (its theorems say zero pivot
+//!   <-> None) and a panic of any entry point is answered `(2)`, which no model result equals.
+//!   All three routines host the type: LDL^T divides only by a pivot it tested `== 0`; Cholesky only
+//!   by sqrt(pivot) with pivot > 0; QR only by the euclidean length sqrt(u.u) — and the polynomial
+//!   stand-in sqrt x = x^3 + 7x + 23 is >= 23 on every x >= 0, so neither ever divides by zero on the
+//!   unchanged code (with a true square root QR would, on a zero column: 0/0 — outside the property).
 //! Result: see coq/theories/Run/RunC08.v.  The canonical result is the one of the tensor routine
 //! on `&Tensor`; the Matrix routine and the tensor routine on an owned Tensor, `&mut Tensor`,
 //! a TensorView over a borrowed / owned tensor, a TensorTranspose view of the transposed data, a
@@ -15,6 +25,8 @@ use easy_ml::matrices::Matrix;
 use easy_ml::numeric::extra::{Real, RealRef};
 use easy_ml::tensors::views::{IndexRange, TensorView};
 use easy_ml::tensors::Tensor;
+
+mod strict;
 
 pub fn run(args: &[Sx]) -> Sx {
     if args.len() == 7 && args[0].i64() == Some(4) {
@@ -32,8 +44,17 @@ pub fn run(args: &[Sx]) -> Sx {
         return bad_case();
     }
     // outside the language (see RunC08.v): Rat Cholesky beyond 4x4, Rat QR with more than one reflection
-    if ty == 0 && ((op == 1 && rows > 4 && rows == cols) || (op == 3 && cols <= rows && std::cmp::min(rows - 1, cols) > 1)) {
+    if (ty == 0 || ty == 2)
+        && ((op == 1 && rows > 4 && rows == cols) || (op == 3 && cols <= rows && std::cmp::min(rows - 1, cols) > 1))
+    {
         return bad_case();
+    }
+    if ty == 2 {
+        // a panic inside any entry point (division by zero of StrictRat, or anything else): `(2)`
+        return match crate::guarded(|| go::<strict::StrictRat>(op, (names[0], names[1]), rows, cols, &args[5])) {
+            Some(r) => r,
+            None => panicked(),
+        };
     }
     with_ty!(ty, go(op, (names[0], names[1]), rows, cols, &args[5]))
 }
